@@ -120,7 +120,7 @@ UNITS = [
 VERIFIED_CALLEES = ()
 LEVEL = "other"
 TECHNIQUE = "contract-based deductive verification (VCs from the real AST with ghost call events) + bounded run-time contract checking of auto_cli on generated signatures"
-LEVEL_TEXT = "Proved on _run_component with ghost call events: the component (and for a class the chosen method) is invoked exactly once, each with exactly its own parameters (config/subcommand bookkeeping keys removed), constructor before method, and the callee's return value is returned, for functions, coroutines, classes with method / property / without methods. Bounded only: auto_cli end to end on generated signatures (34 types, 1-3 parameters, all kinds, argv and config)."
+LEVEL_TEXT = "Verified with ghost call events: auto_cli builds the parser, declares the component(s), parses the given argv, instantiates and dispatches exactly one component selected by the parsed subcommand path, returning its result (10 component shapes); _add_component_to_parser / _add_subcommands declare functions, classes (constructor group + one required subcommand per public method or property) and nested dicts with the caller's settings; _add_signature_arguments offers every resolved parameter exactly once in signature order (skips honoured, existing options refused first); _add_signature_parameter decides required / positional / Optional->None / default kept / *args, **kwargs and private defaults skipped (1536 parameter shapes); _run_component invokes the component (and the chosen method) exactly once, each with exactly its own parameters, constructor before method; handle_subcommands passes the failure mode down nested levels. Bounded only: auto_cli end to end on generated signatures (34 types, 1-3 parameters, all kinds, argv and config)."
 LEVEL_NOTE = "under construction"
 EXPLANATION = "under construction"
 ASSUMPTIONS = []
